@@ -2,6 +2,7 @@
 from __future__ import annotations
 
 import ast
+import copy
 
 from ..astutil import attr_chain, call_method, short, src, enum_member, kwarg, flatten_boolop
 from ..model import Program, walk_local, AnalysisError
@@ -24,12 +25,75 @@ def writer_table(p: Program):
                 for c in ast.walk(ast.Module(body=n.body, type_ignores=[])):
                     if isinstance(c, ast.Call) and attr_chain(c.func) in (["mido", "Message"], ["mido", "MetaMessage"]) and c.args \
                             and isinstance(c.args[0], ast.Constant):
-                        table[T] = (c.args[0].value, {k.arg: k.value for k in c.keywords}, c)
+                        table[T] = (c.args[0].value, {k.arg: _resolve_local(c, k.value) for k in c.keywords}, c)
     return fi, loop, m, table
 
 
+def _resolve_local(call: ast.Call, v: ast.AST) -> ast.AST:
+    """A keyword value that is a local defined by the statement just before the one that contains `call` -- `x = e`, or
+    `if c: x = a` / `else: x = b` (the statement form of `a if c else b`) -- is that expression."""
+    if not isinstance(v, ast.Name):
+        return v
+    st = call
+    while not isinstance(st, ast.stmt):
+        st = st._parent
+    par = getattr(st, "_parent", None)
+    for f in ("body", "orelse"):
+        blk = getattr(par, f, None)
+        if isinstance(blk, list) and st in blk and blk.index(st) > 0:
+            prev = blk[blk.index(st) - 1]
+
+            def val(s_):
+                if isinstance(s_, ast.Assign) and len(s_.targets) == 1 and isinstance(s_.targets[0], ast.Name) and s_.targets[0].id == v.id:
+                    return s_.value
+                return None
+            if val(prev) is not None:
+                return val(prev)
+            if isinstance(prev, ast.If) and len(prev.body) == 1 and len(prev.orelse) == 1 and val(prev.body[0]) is not None and val(prev.orelse[0]) is not None:
+                return ast.copy_location(ast.IfExp(test=prev.test, body=val(prev.body[0]), orelse=val(prev.orelse[0])), v)
+    return v
+
+
 def reader_table(p: Program):
-    """mido type string -> list of (MessageType member, {attr: source expr}, extra conditions text)."""
+    """mido type string -> list of (MessageType member, {attr: source expr}, extra conditions, test).  Read off the case-by-case
+    evaluation of the function (`_ParseEval`: what is stored for a note_on with velocity > 0, == 0, a note_off, ...), so the shape of
+    the dispatch does not matter; a kind whose cases the evaluation cannot decide falls back to the branch conditions as written."""
+    fi = p.func("MidiMessage.parse_mido_message")
+    sp = fi.params[0]
+    try:
+        _, _, shape = _reader_table_by_shape(p)
+    except AnalysisError:
+        shape = {}
+    ret = next((r for r in walk_local(fi.node) if isinstance(r, ast.Return) and isinstance(r.value, ast.Name)), None)
+    if ret is None:
+        return fi, sp, shape
+    out: dict[str, list] = {}
+    vel = ast.Attribute(value=ast.Name(id=sp, ctx=ast.Load()), attr="velocity", ctx=ast.Load())
+    for mtype in ("note_on", "note_off", "time_signature", "key_signature", "control_change", "program_change"):
+        cases = {}
+        for vc in ("pos", "zero"):
+            ev = _ParseEval(sp, ret.value.id, mtype, vc, True)
+            ev.run(fi.node.body)
+            if ev.unknown:
+                cases = None
+                break
+            T = enum_member(ev.stores["message_type"], "MessageType") if "message_type" in ev.stores else None
+            cases[vc] = (T, {k: v for k, v in ev.stores.items() if k not in ("message_type", "time", "channel")})
+        if cases is None:
+            if mtype in shape:
+                out[mtype] = shape[mtype]
+            continue
+        (tp, ap), (tz, az) = cases["pos"], cases["zero"]
+        if tp == tz and {k: src(v) for k, v in ap.items()} == {k: src(v) for k, v in az.items()}:
+            if tp is not None:
+                out[mtype] = [(tp, ap, [], None)]
+            continue
+        out[mtype] = [(t_, a_, [ast.Compare(left=vel, ops=[op], comparators=[ast.Constant(value=0)])], None)
+                      for t_, a_, op in ((tp, ap, ast.Gt()), (tz, az, ast.Eq())) if t_ is not None]
+    return fi, sp, out
+
+
+def _reader_table_by_shape(p: Program):
     fi = p.func("MidiMessage.parse_mido_message")
     src_param = fi.params[0]
     out: dict[str, list] = {}
@@ -76,8 +140,45 @@ class _ParseEval:
         self.sp, self.mv, self.mtype, self.vel, self.has_channel = src_param, msg_var, mtype, vel, has_channel
         self.stores: dict[str, ast.AST] = {}
         self.unknown: list[ast.AST] = []
+        self.env: dict[str, ast.AST] = {}          # locals of the function, as expressions over the mido message
+        self.done = False
+
+    def ev(self, e: ast.AST) -> ast.AST:
+        """`e` with the locals replaced by what they hold in this case, `getattr(mido, "channel", None)` resolved by the case and
+        conditional expressions decided."""
+        me = self
+
+        class _S(ast.NodeTransformer):
+            def visit_Name(self2, n):
+                if isinstance(n.ctx, ast.Load) and n.id in me.env:
+                    return copy.deepcopy(me.env[n.id])
+                return n
+
+            def visit_Call(self2, c):
+                self2.generic_visit(c)
+                if isinstance(c.func, ast.Name) and c.func.id == "getattr" and len(c.args) in (2, 3) and src(c.args[0]) == me.sp and isinstance(c.args[1], ast.Constant):
+                    attr = ast.copy_location(ast.Attribute(value=c.args[0], attr=c.args[1].value, ctx=ast.Load()), c)
+                    if c.args[1].value == "channel" and len(c.args) == 3:
+                        return attr if me.has_channel else c.args[2]
+                    return attr
+                return c
+
+            def visit_IfExp(self2, n):
+                self2.generic_visit(n)
+                v = me.truth(n.test)
+                return n if v is None else (n.body if v else n.orelse)
+        return _S().visit(copy.deepcopy(e))
 
     def truth(self, t):
+        if isinstance(t, ast.Compare) and len(t.ops) == 1 and isinstance(t.ops[0], (ast.Is, ast.IsNot, ast.Eq, ast.NotEq)) \
+                and isinstance(t.comparators[0], ast.Constant) and t.comparators[0].value is None:
+            l = t.left
+            positive = isinstance(t.ops[0], (ast.Is, ast.Eq))
+            if isinstance(l, ast.Constant):
+                return (l.value is None) == positive
+            if enum_member(l, "MessageType") is not None or (isinstance(l, ast.Attribute) and src(l.value) == self.sp and l.attr in ("type", "time", "note", "velocity")):
+                return not positive
+            return None
         if isinstance(t, ast.BoolOp):
             vals = [self.truth(v) for v in t.values]
             if isinstance(t.op, ast.And):
@@ -116,8 +217,10 @@ class _ParseEval:
 
     def run(self, body):
         for s in body:
+            if self.done:
+                return
             if isinstance(s, ast.If):
-                v = self.truth(s.test)
+                v = self.truth(self.ev(s.test))
                 if v is None:
                     self.unknown.append(s.test)
                     self.run(s.body)
@@ -125,8 +228,16 @@ class _ParseEval:
                 else:
                     self.run(s.body if v else s.orelse)
             elif isinstance(s, ast.Assign) and len(s.targets) == 1 and isinstance(s.targets[0], ast.Attribute) and src(s.targets[0].value) == self.mv:
-                self.stores[s.targets[0].attr] = s.value
+                self.stores[s.targets[0].attr] = self.ev(s.value)
+            elif isinstance(s, ast.Assign) and len(s.targets) == 1 and isinstance(s.targets[0], ast.Name):
+                if s.targets[0].id == self.mv and isinstance(s.value, ast.Call):
+                    for k in s.value.keywords:                 # the object built with some of its fields given to the constructor
+                        if k.arg is not None:
+                            self.stores[k.arg] = self.ev(k.value)
+                elif s.targets[0].id != self.mv:
+                    self.env[s.targets[0].id] = self.ev(s.value)
             elif isinstance(s, ast.Return):
+                self.done = True
                 return
 
 
